@@ -1071,6 +1071,55 @@ def raw_leaf_stats(X):
             'gt0': (X > 0.0).sum(axis=0), 'gt1': (X > 1.0).sum(axis=0), 'ge1': (X > 1.0 - 1.0e-6).sum(axis=0)}
 
 
+def stored_row(raw, D):
+    """the row of the statistics file of one leaf AS STORED: the float sum / sumsq read as exact dyadic
+    numbers over D / D*D (D a power of two large enough)."""
+    ng = len(raw['sum'])
+    sm, sq = [], []
+    for g in range(ng):
+        a, b = fr(raw['sum'][g]) * D, fr(raw['sumsq'][g]) * D * D
+        assert a.denominator == 1 and b.denominator == 1, (raw['sum'][g], raw['sumsq'][g], D)
+        sm.append(a.numerator)
+        sq.append(b.numerator)
+    return [int(raw['n_cells']), sm, sq, [int(x) for x in raw['gt0']], [int(x) for x in raw['gt1']], [int(x) for x in raw['ge1']]]
+
+
+def stored_D(raws):
+    k = 2
+    for raw in raws:
+        for g in range(len(raw['sum'])):
+            k = max(k, fr(raw['sum'][g]).denominator.bit_length() - 1,
+                    (fr(raw['sumsq'][g]).denominator.bit_length()) // 2 + 1)
+    return 1 << k
+
+
+NONDYADIC = [0.7, 3.3, 0.1, 1.1, 2.7, 5.3, 0.3, 9.9, 1.7, 0.9]
+
+
+def gen_nondyadic_stats(rng):
+    """clusters whose genes are CONSTANT at a non-dyadic value (0.7, 3.3, 0.1 ...: the stored sum / sumsq give a
+    tiny float variance of either sign or exactly 0), constant at a dyadic value (2.0, 0.25, 0: float variance
+    exactly 0), or scattered non-dyadic values (one or two decimals)."""
+    n_genes = rng.choice([2, 3, 4, 5, 6])
+    n_leaves = rng.choice([2, 2, 3])
+    sizes = [rng.choice([1, 2, 3, 4, 5, 6, 7, 9, 11, 12, 17]) for _ in range(n_leaves)]
+    kinds = [rng.choice(['const-nd', 'const-nd', 'const-nd', 'const-dy', 'scatter', 'const-nd-vs-zero']) for _ in range(n_genes)]
+    data = [np.zeros((n, n_genes)) for n in sizes]
+    for g, kind in enumerate(kinds):
+        for c in range(n_leaves):
+            n = sizes[c]
+            if kind == 'const-nd':
+                data[c][:, g] = rng.choice(NONDYADIC)
+            elif kind == 'const-nd-vs-zero':
+                data[c][:, g] = rng.choice(NONDYADIC) if c == 0 else 0.0
+            elif kind == 'const-dy':
+                data[c][:, g] = rng.choice([0.0, 2.0, 0.25, 8.0, 1.5])
+            else:
+                base = rng.choice([0.0, 0.0, 2.0, 6.0])
+                data[c][:, g] = [round(base + rng.uniform(0.0, 3.0), rng.choice([1, 2])) for _ in range(n)]
+    return {'n_genes': n_genes, 'n_leaves': n_leaves, 'sizes': sizes, 'data': data, 'kinds': kinds}
+
+
 def rat_close(val, num, den, exact):
     """float `val` against the model's exact rational: identical when one correctly rounded operation
     separates them (exact), else to 1e-12 relative."""
@@ -1111,45 +1160,59 @@ def welch_cases(ctx):
     """Model/Welch.v against the real aggregate_stats, _calculate_tt_nu, welch_t_test (exact and skipping),
     pij_from_stats, q_score_from_pij and score_differential_genes, all fed from the SAME summary statistics
     (values multiples of 1/4, so sums and sums of squares are exact; cluster sizes 0, 1, 2, ... incl. zero
-    variance); scipy's t.cdf enters the model as per-gene oracle values.  Also checks NUMERICALLY, on every
+    variance - AND non-dyadic values incl. genes constant at 0.7, 3.3 ...: there the STORED float sum / sumsq are
+    read as exact dyadics and the model's variance is the binary64 variance var_f, compared bit for bit);
+    scipy's t.cdf enters the model as an oracle TABLE statistic -> value (a function of the model's own
+    (sign, t^2, nu), built here from tag 1150's output).  Also checks NUMERICALLY, on every
     gene that occurs, the premises of c11_boring_t_sound / c11_welch_route_sound (end points and sandwich)."""
     from cell_type_mapper.diff_exp.score_utils import aggregate_stats, pij_from_stats, q_score_from_pij
     from cell_type_mapper.diff_exp.scores import score_differential_genes
     from cell_type_mapper.utils.stats_utils import _calculate_tt_nu, welch_t_test, boring_t_from_p_value
     import scipy.stats as ss
     rng = ctx.rng
-    D = 4
     jobs = []
-    for ci in range(ctx.n(60, 1500)):
-        st = gen_stats(rng, exact_grid=rng.random() < 0.6, marker_like=rng.random() < 0.4)
-        if rng.random() < 0.3:      # cluster sizes the marker-like generator avoids
+    n_exact = ctx.n(60, 1500)
+    for ci in range(n_exact + ctx.n(40, 800)):
+        nondy = ci >= n_exact
+        if nondy:
+            st = gen_nondyadic_stats(rng)
+        else:
+            st = gen_stats(rng, exact_grid=rng.random() < 0.6, marker_like=rng.random() < 0.4)
+        if not nondy and rng.random() < 0.3:      # cluster sizes the marker-like generator avoids
             k = rng.randrange(st['n_leaves'])
             n_new = rng.choice([0, 1, 1, 1])
             st['data'][k] = st['data'][k][:n_new, :]
             st['sizes'][k] = n_new
         leaves = [f'c{i}' for i in range(st['n_leaves'])]
         raw = {c: raw_leaf_stats(st['data'][i]) for i, c in enumerate(leaves)}
-        rows = {c: summary_row(st['data'][i], D) for i, c in enumerate(leaves)}
+        if nondy:
+            # the statistics AS STORED, read as exact dyadics; single leaves only (aggregate_stats adds the
+            # leaves' float sums, which rounds again: the model's input is one stored row per population)
+            D = stored_D(raw.values())
+            rows = {c: stored_row(raw[c], D) for c in leaves}
+        else:
+            D = 4
+            rows = {c: summary_row(st['data'][i], D) for i, c in enumerate(leaves)}
         # two populations: single leaves or unions of leaves (aggregate_stats)
         order = leaves[:]
         rng.shuffle(order)
         cut = rng.randrange(1, len(order))
-        pop1 = order[:cut][:rng.choice([1, 1, 2])]
-        pop2 = order[cut:][:rng.choice([1, 1, 2])]
+        pop1 = order[:cut][:1 if nondy else rng.choice([1, 1, 2])]
+        pop2 = order[cut:][:1 if nondy else rng.choice([1, 1, 2])]
         with quiet():
             a1 = aggregate_stats(leaf_population=pop1, precomputed_stats=raw)
             a2 = aggregate_stats(leaf_population=pop2, precomputed_stats=raw)
-        jobs.append({'st': st, 'pop1': pop1, 'pop2': pop2, 'a1': a1, 'a2': a2,
+        jobs.append({'st': st, 'pop1': pop1, 'pop2': pop2, 'a1': a1, 'a2': a2, 'D': D, 'nondy': nondy,
                      'rows1': [rows[c] for c in pop1], 'rows2': [rows[c] for c in pop2]})
     agg = ctx.model([(1154, [j['st']['n_genes'], j[k]]) for j in jobs for k in ('rows1', 'rows2')])
     stage2 = []
     for i, j in enumerate(jobs):
         j['s1'], j['s2'] = agg[2 * i][1], agg[2 * i + 1][1]
-        stage2 += [(1150, [D, j['s1'], j['s2']]), (1151, [D, j['s1'], j['s2']])]
+        stage2 += [(1150, [j['D'], j['s1'], j['s2']]), (1151, [j['D'], j['s1'], j['s2']])]
     res2 = ctx.model(stage2)
     stage3, metas = [], []
     for i, j in enumerate(jobs):
-        st, a1, a2 = j['st'], j['a1'], j['a2']
+        st, a1, a2, D, nondy = j['st'], j['a1'], j['a2'], j['D'], j['nondy']
         ng = st['n_genes']
         n1, n2 = int(a1['n_cells']), int(a2['n_cells'])
         desc = {'pop1': j['pop1'], 'pop2': j['pop2'], 'n1': n1, 'n2': n2, 'D': D, 'summary1': j['s1'], 'summary2': j['s2']}
@@ -1175,7 +1238,9 @@ def welch_cases(ctx):
                 corr.append(f'gene {g}: {pr}')
             names = ('mean1', 'mean2', 'var1', 'var2', 'pij1', 'pij2', 'q1', 'qdiff', 'fold')
             vals = (a1['mean'][g], a2['mean'][g], a1['var'][g], a2['var'][g], pij1[g], pij2[g], q1[g], qd[g], fold[g])
-            single = (True, True, pow2, pow2, True, True, True, pow2, pow2)
+            # var1, var2: the model's var_f IS the binary64 variance - identical bit for bit, always
+            # means and fold likewise (mean_f, |mdiff_f|); pij and q1 are one correctly rounded division
+            single = (True, True, True, True, True, True, True, pow2, True)
             for name, v, (num, den), one in zip(names, vals, r_s[1][g], single):
                 if den <= 0 or not rat_close(float(v), num, den, one):
                     corr.append(f'gene {g}: {name} code {float(v)!r}, model {num}/{den}')
@@ -1184,7 +1249,20 @@ def welch_cases(ctx):
         for g in zero_var:
             if r_t[1][g][0] != 1 or r_t[1][g][3] != 0:
                 corr.append(f'gene {g}: zero variance in both clusters but the model gives {r_t[1][g]}, expected kind 1 with nu = 0')
-        ctx.dist('welch_from_stats', ('n=0' if min(n1, n2) == 0 else 'n=1' if min(n1, n2) == 1 else 'n>=2')
+        # which branch of _calculate_tt_nu: denom = 1e-10 exactly when var1/n1 + var2/n2 is not > 0 (0, negative, NaN)
+        if min(n1, n2) >= 1:
+            with np.errstate(all='ignore'):
+                nu_num = a1['var'] / a1['n_cells'] + a2['var'] / a2['n_cells']
+            for g in range(ng):
+                tiny = not (float(nu_num[g]) > 0.0)
+                if (r_t[1][g][0] == 1) != tiny:
+                    corr.append(f'gene {g}: code nu_num = {float(nu_num[g])!r} (denom {"1e-10" if tiny else "sqrt"}), model kind {r_t[1][g][0]}')
+                if nondy:
+                    const = all(len(set(st['data'][int(c[1:])][:, g])) <= 1 for c in j['pop1'] + j['pop2'])
+                    if const:
+                        NOISE['constant genes'] += 1
+                        NOISE['float variance sum ' + ('== 0' if float(nu_num[g]) == 0.0 else '< 0' if float(nu_num[g]) < 0 else '> 0')] += 1
+        ctx.dist('welch_from_stats', ('nondyadic,' if nondy else '') + ('n=0' if min(n1, n2) == 0 else 'n=1' if min(n1, n2) == 1 else 'n>=2')
                  + (',zero-variance-gene' if zero_var else '') + (',union' if len(j['pop1']) + len(j['pop2']) > 2 else ''))
         # -- p-values, exact and skipping, with scipy's CDF as the oracle
         p_th = rng.choice([0.01, 0.01, 0.02, 0.045, 0.001, 1.0e-5, 0.5, 1.0])
@@ -1199,6 +1277,19 @@ def welch_cases(ctx):
         kc = max(scale_bits(fin + [CLIP_LO, CLIP_HI, p_th, 0.5]), 2)
         H = 1 << (kc - 1)
         cdfs = [[to_int(float(c), kc)] if np.isfinite(c) else [] for c in cdf]
+        # the oracle as a FUNCTION of the modelled statistic: table (model's own tnu of gene g) -> CDF value;
+        # two genes with the same statistic must have the same value (else the oracle is not a function: reported)
+        table, seen = [], {}
+        for g in range(ng):
+            key = json.dumps(r_t[1][g])
+            if key in seen:
+                if seen[key] != cdfs[g]:
+                    corr.append(f'gene {g}: same modelled statistic {r_t[1][g]} as an earlier gene but a different CDF value '
+                                f'({cdfs[g]} vs {seen[key]}): t.cdf is not a function of the modelled (t, nu)')
+                continue
+            seen[key] = cdfs[g]
+            table.append([r_t[1][g], cdfs[g]])
+        cdfs = table
         bq = [] if bt is None else [fr(bt).numerator, fr(bt).denominator]
         near_b = bt is not None and any(np.isfinite(t) and abs(abs(float(t)) - bt) <= 1e-9 * bt for t in tt)
         # premises of the skipping theorems, numerically, on every gene that occurs
@@ -1222,6 +1313,22 @@ def welch_cases(ctx):
         for g in range(ng):
             for num, den in (r_s[1][g][k] for k in (0, 1, 6, 7, 8)):
                 S = S * den // math.gcd(S, den)
+        # a rational score of the model and the float score of the code on different sides of a threshold / floor:
+        # legitimate only within rounding distance (off_threshold of c11_sound_from_stats fails "up to rounding")
+        hit = []
+        for g in range(ng):
+            if vgi is not None and g not in vgi:
+                continue
+            for name, fv, (num, den), ths in (('q1', q1[g], r_s[1][g][6], (th[0], th[1])), ('qdiff', qd[g], r_s[1][g][7], (th[2], th[3])),
+                                              ('fold', fold[g], r_s[1][g][8], (th[4], th[5]))):
+                r = Fraction(num, den)
+                for t in ths:
+                    T_ = fr(t)
+                    if ((fr(fv) > T_) - (fr(fv) < T_)) != ((r > T_) - (r < T_)):
+                        if abs(r - T_) <= max(abs(T_), Fraction(1, 2 ** 40)) * Fraction(1, 2 ** 44):
+                            hit.append(f'gene {g}: {name} = {num}/{den} (float {float(fv)!r}) against {t!r}')
+                        else:
+                            corr.append(f'gene {g}: {name} code {float(fv)!r}, model {num}/{den} compare differently with {t!r}, beyond rounding')
         mask = None if vgi is None else [g in vgi for g in range(ng)]
         settings = [S, [int(fr(x) * S) for x in th], n_min, exact, n_valid, n_valid_min]
         for b_enc, tag_p in ((bq, 'skip'), ([], 'exact')):
@@ -1235,7 +1342,8 @@ def welch_cases(ctx):
                                    n_valid_min=n_valid_min, gene_mask=mask, n_cells_min=n_min),
                       'corr': corr, 'prop': prop, 'kc': kc, 'p_exact': [float(x) for x in p_exact],
                       'p_skip': [float(x) for x in p_skip], 'near_b': near_b, 'v': [bool(x) for x in v],
-                      'up': [bool(x) for x in up], 'pi': pi, 'th': th, 'p_th': p_th, 'mask': mask, 'n_min': n_min})
+                      'up': [bool(x) for x in up], 'pi': pi, 'th': th, 'p_th': p_th, 'mask': mask, 'n_min': n_min,
+                      'hit': hit, 'nondy': nondy, 'st': st, 'pops': j['pop1'] + j['pop2'], 'tnu': r_t[1]})
     res3 = ctx.model(stage3)
     for i, m in enumerate(metas):
         r_skip, r_exact, r_sdg = res3[3 * i: 3 * i + 3]
@@ -1250,6 +1358,19 @@ def welch_cases(ctx):
         ng = len(v)
         small = min(pi['n1'], pi['n2']) < m['n_min']
         skip = m['near_b']
+        if m['hit']:
+            # counted, never silently skipped: evidence key c11_threshold_hit_exactly
+            HITS['in welch_cases (model decision not compared)'] += 1
+            if len(HITS_EXAMPLES) < 5:
+                HITS_EXAMPLES.append(m['hit'][0])
+            skip = True
+        if m['nondy'] and not small:
+            for g in range(ng):
+                if all(len(set(m['st']['data'][int(c[1:])][:, g])) <= 1 for c in m['pops']) and m['tnu'][g][0] != 2:
+                    nz = m['tnu'][g][3] != 0
+                    NOISE['constant gene, nu ' + ('> 0 (rounding residue)' if nz else '= 0') + (': RECORDED' if v[g] else ': not recorded')] += 1
+                    if v[g] and not nz:
+                        corr.append(f'gene {g}: constant with float variance exactly 0 in both clusters but recorded (c11_welch_constant_gene)')
         if not small and not skip:
             dec = exact_decisions(pi, th, p_th, mask or [True] * ng)
             pass2 = [(mask[g] if mask else True) and dec[g]['p_ok'] for g in range(ng)]
@@ -1269,6 +1390,162 @@ def welch_cases(ctx):
 
 
 PREMISES_CHECKED = {'end_points': 0, 'skipped_genes': 0}
+import collections
+NOISE = collections.Counter()
+HITS = collections.Counter()
+HITS_EXAMPLES = []
+CONST_GENE = 'c11-constant-gene-not-recorded'
+
+
+def threshold_hit_cases(ctx):
+    """Audit 3, defect A1: count ratios placed EXACTLY on the default thresholds 0.7 (qdiff_th), 0.1 (qdiff_min_th,
+    q1_min_th) and 0.8 (log2_fold_min_th), cluster sizes <= 40, one gene.  The real score_differential_genes is
+    compared with BOTH exact readings - thresholds as the decimal rationals the user wrote (7/10 ...: the reading
+    of c11_sound_from_stats' off_threshold), and thresholds as the binary64 numbers they are stored as (the reading
+    of the tie) - and with the model (tag 1152, dyadic reading).  Where the float comparison differs from an exact
+    one the case is COUNTED (ctx.extra['c11_threshold_hit_exactly']), not reported: float rounding at an exactly-hit
+    threshold is outside the property's "up to rounding" (ctx.assumptions)."""
+    from cell_type_mapper.diff_exp.score_utils import aggregate_stats, pij_from_stats, q_score_from_pij
+    from cell_type_mapper.diff_exp.scores import score_differential_genes
+    from cell_type_mapper.utils.stats_utils import welch_t_test
+    rng = ctx.rng
+    TH = [0.5, 0.1, 0.7, 0.1, 1.0, 0.8]
+    dec = [Fraction(str(x)) for x in TH]
+    dya = [fr(x) for x in TH]
+    cand = {'qdiff=7/10': [], 'qdiff=1/10': [], 'q1=1/10': [], 'fold=4/5': []}
+    for n1 in range(2, 41):
+        for n2 in range(2, 41):
+            for g1 in range(0, n1 + 1):
+                for g2 in range(0, n2 + 1):
+                    p1, p2 = Fraction(g1, n1), Fraction(g2, n2)
+                    q = max(p1, p2)
+                    qd = abs(p1 - p2) / q if q > 0 else abs(p1 - p2)
+                    if qd == Fraction(7, 10) and q > Fraction(1, 2):
+                        cand['qdiff=7/10'].append((n1, g1, n2, g2))
+                    elif qd == Fraction(1, 10) and q > Fraction(1, 2):
+                        cand['qdiff=1/10'].append((n1, g1, n2, g2))
+                    elif q == Fraction(1, 10) and qd >= Fraction(1, 2):
+                        cand['q1=1/10'].append((n1, g1, n2, g2))
+    for n1 in (5, 10, 15, 20, 25, 35):
+        for n2 in (2, 3, 4, 5, 7, 10):
+            cand['fold=4/5'].append((n1, n1, n2, 0))
+    out = collections.Counter()
+    examples = []
+    jobs = []
+    for kind, lst in cand.items():
+        out[f'{kind}: quadruples n<=40'] = len(lst)
+        for (n1, g1, n2, g2) in (lst if ctx.tier == 'thorough' and len(lst) <= 3000 else rng.sample(lst, min(len(lst), ctx.n(40, 1500)))):
+            # dyadic cell values (sums exact): expressing cells alternate hi/hi+1, the others 0 / 0.5
+            if kind == 'fold=4/5':
+                # mean1 = 4/5 exactly as a rational (4 of every 5 cells at 1.0, the others 0), mean2 = 0:
+                # fold = 4/5 = log2_fold_min_th as written; pij = 4/5 against 0
+                Xa = np.array([[1.0 if i % 5 < 4 else 0.0] for i in range(n1)])
+                Xb = np.zeros((n2, 1))
+            else:
+                hi_a, hi_b = (2.0, 9.0) if kind != 'q1=1/10' else (2.0, 12.0)
+                Xa = np.array([[hi_a + (i % 2) if i < g1 else 0.5 * (i % 2)] for i in range(n1)])
+                Xb = np.array([[hi_b + (i % 2) if i < g2 else 0.5 * (i % 2)] for i in range(n2)])
+            raw = {'a': raw_leaf_stats(Xa), 'b': raw_leaf_stats(Xb)}
+            with quiet():
+                cs = {'x/a': aggregate_stats(['a'], raw), 'x/b': aggregate_stats(['b'], raw)}
+                pij1, pij2, fold = pij_from_stats(cluster_stats=cs, node_1='x/a', node_2='x/b')
+                q1f, qdf = q_score_from_pij(pij1, pij2)
+                _, _, pv = welch_t_test(cs['x/a']['mean'], cs['x/a']['var'], n1, cs['x/b']['mean'], cs['x/b']['var'], n2)
+                res = {}
+                for exact in (True, False):
+                    _, v, _ = score_differential_genes(
+                        node_1='x/a', node_2='x/b', precomputed_stats=cs, p_th=0.9, q1_th=TH[0], qdiff_th=TH[2], log2_fold_th=TH[4],
+                        q1_min_th=TH[1], qdiff_min_th=TH[3], log2_fold_min_th=TH[5], n_cells_min=2, boring_t=None,
+                        exact_penetrance=exact, n_valid=1, n_valid_min=0)
+                    res[exact] = bool(v[0])
+            p_ok = float(pv[0]) < 0.9
+            r_q1 = max(Fraction(int(raw['a']['ge1'][0]), n1), Fraction(int(raw['b']['ge1'][0]), n2))
+            dp = abs(Fraction(int(raw['a']['ge1'][0]), n1) - Fraction(int(raw['b']['ge1'][0]), n2))
+            r_qd = dp / r_q1 if r_q1 > 0 else dp
+            r_f = abs(fr(raw['a']['sum'][0]) / n1 - fr(raw['b']['sum'][0]) / n2)
+            ctx.count(('threshold-hit', kind, n1, g1, n2, g2), nontrivial=p_ok)
+            for rd, ths in (('decimal', dec), ('binary64', dya)):
+                want = {True: p_ok and r_q1 > ths[0] and r_qd > ths[2] and r_f > ths[4],
+                        # one gene, n_valid = 1: recorded iff p passes and the gene is not below a floor
+                        False: p_ok and r_q1 >= ths[1] and r_qd >= ths[3] and r_f >= ths[5]}
+                for exact in (True, False):
+                    mode = 'exact-penetrance' if exact else 'approximate'
+                    same = want[exact] == res[exact]
+                    out[f'{kind}, {mode}: real code {"agrees with" if same else "DIFFERS from"} the exact {rd} reading'] += 1
+                    if not same and len(examples) < 8:
+                        examples.append({'kind': kind, 'mode': mode, 'reading': rd, 'n1': n1, 'ge1_1': g1, 'n2': n2, 'ge1_2': g2,
+                                         'float_q1': float(q1f[0]), 'float_qdiff': float(qdf[0]), 'float_fold': float(fold[0]),
+                                         'real_code_records': res[exact], 'exact_reading_records': want[exact]})
+            jobs.append({'kind': kind, 'raw': raw, 'res': res, 'pv': float(pv[0]), 'n1': n1, 'n2': n2})
+    # the model on the same statistics (dyadic reading of the thresholds, as in welch_cases)
+    D = 4
+    calls = []
+    for j in jobs:
+        rows = [stored_row(j['raw'][c], D) for c in ('a', 'b')]
+        j['rows'] = rows
+        calls.append((1150, [D, rows[0], rows[1]]))
+        calls.append((1151, [D, rows[0], rows[1]]))
+    r1 = ctx.model(calls)
+    calls = []
+    for i, j in enumerate(jobs):
+        r_t, r_s = r1[2 * i], r1[2 * i + 1]
+        S = 1 << scale_bits(TH + [1.0])
+        for num, den in (r_s[1][0][k] for k in (0, 1, 6, 7, 8)):
+            S = S * den // math.gcd(S, den)
+        kc = max(scale_bits([j['pv'] / 2.0, CLIP_LO, CLIP_HI, 0.9, 0.5]), 2)
+        H = 1 << (kc - 1)
+        # p = 2*cdf or 2*(1-cdf): hand the model the CDF value cdf = p/2 (lower tail), which gives back p
+        table = [[r_t[1][0], [to_int(j['pv'] / 2.0, kc)]]]
+        for exact in (True, False):
+            settings = [S, [int(fr(x) * S) for x in TH], 2, exact, 1, 0]
+            calls.append((1152, [settings, [], D, H, to_int(CLIP_LO, kc), to_int(CLIP_HI, kc), to_int(0.9, kc), [], table,
+                                 j['rows'][0], j['rows'][1]]))
+    r2 = ctx.model(calls)
+    for i, j in enumerate(jobs):
+        for k, exact in enumerate((True, False)):
+            r = r2[2 * i + k]
+            mode = 'exact-penetrance' if exact else 'approximate'
+            if r[0] != 0:
+                ctx.violation(f'threshold_hit_cases: model error {r}', {'class': 'corr:Welch.sdg_stats', 'case': j['kind']}, no_input=True)
+                continue
+            same = bool(r[1][0][0]) == j['res'][exact]
+            out[f'{j["kind"]}, {mode}: real code {"agrees with" if same else "DIFFERS from"} the model (binary64 thresholds, rational scores)'] += 1
+    ctx.extra['c11_threshold_hit_exactly'] = {'counts': dict(sorted(out.items())), 'examples': examples,
+                                              'welch_cases': dict(HITS), 'welch_cases_examples': HITS_EXAMPLES}
+
+
+def constant_gene_case(ctx):
+    """Finding F28 (c11-constant-gene-not-recorded): a gene CONSTANT in both clusters at values whose float variance
+    is exactly 0 (all cells 2.0 against all cells 0.0 - as different as two clusters can be, penetrance 1 against 0)
+    gets nu = 0, t.cdf = NaN, p = 1 and is NOT recorded, while the same gene at 3.3 / 1.1 (float variance 1e-15 by
+    cancellation) IS recorded with t ~ 1e8: whether a constant gene is a marker is decided by rounding noise.  The
+    independent Welch test (scipy.stats.ttest_ind, equal_var=False) gives t = inf, p = 0 for all of them."""
+    from cell_type_mapper.diff_exp.score_utils import aggregate_stats
+    from cell_type_mapper.diff_exp.scores import score_differential_genes
+    import scipy.stats as ss
+    got = {}
+    for v1 in (2.0, 8.0, 3.3, 1.1):
+        Xa, Xb = np.full((11 if v1 == 3.3 else 5, 1), v1), np.zeros((6, 1))
+        raw = {'a': raw_leaf_stats(Xa), 'b': raw_leaf_stats(Xb)}
+        with quiet():
+            cs = {'x/a': aggregate_stats(['a'], raw), 'x/b': aggregate_stats(['b'], raw)}
+            _, v, up = score_differential_genes(
+                node_1='x/a', node_2='x/b', precomputed_stats=cs, p_th=0.01, q1_th=0.5, qdiff_th=0.7, log2_fold_th=1.0,
+                q1_min_th=0.1, qdiff_min_th=0.1, log2_fold_min_th=0.8, n_cells_min=2, boring_t=None, exact_penetrance=True)
+            ref = ss.ttest_ind(Xa[:, 0], Xb[:, 0], equal_var=False)
+        got[v1] = {'recorded': bool(v[0]), 'float_var': float(cs['x/a']['var'][0]), 'independent_welch_p': float(ref.pvalue)}
+        ctx.count(('constant-gene', v1), nontrivial=True)
+    ctx.extra['c11_constant_genes'] = {str(k): v for k, v in got.items()}
+    for v1 in (2.0, 8.0):
+        if not got[v1]['recorded'] and got[v1]['independent_welch_p'] < 0.01:
+            ctx.violation(f'gene constant at {v1} in one cluster and 0.0 in the other (penetrance 1 vs 0, fold {v1}, independent Welch '
+                          f'p = {got[v1]["independent_welch_p"]}) passes every strict threshold and is NOT recorded (nu = 0, t.cdf = NaN, p = 1); '
+                          f'constant at 3.3 / 1.1 it is recorded ({got[3.3]["recorded"]}, {got[1.1]["recorded"]}) thanks to a float variance of '
+                          f'{got[3.3]["float_var"]!r}', {'class': CONST_GENE, 'value': v1, 'observed': {str(k): v for k, v in got.items()}})
+    if not (got[3.3]['recorded'] and got[1.1]['recorded']):
+        ctx.violation('constant non-dyadic gene (3.3 x 11 / 1.1 x 5 cells against zeros) not recorded: the rounding-noise behaviour '
+                      'described in c11_welch_constant_gene_noise changed', {'class': 'corr:Welch.var_f', 'observed': {str(k): v for k, v in got.items()}},
+                      no_input=True)
 
 
 def boring_premises(ss, tt, nu, bt, p_th):
@@ -1403,7 +1680,16 @@ def run(ctx):
     ctx.assumptions += [
         'sections A-E: raw Welch p-values, q1/qdiff/log2-fold scores and means are model INPUTS taken from the '
         'implementation\'s own routines; section F (welch_cases) computes them in the model from the summary statistics '
-        '(values multiples of 1/4, cluster sizes 0, 1, 2, ..., unions of leaves) with scipy.stats.t.cdf as a per-gene oracle',
+        '(values multiples of 1/4, cluster sizes 0, 1, 2, ..., unions of leaves; and non-dyadic values incl. genes constant at '
+        '0.7, 3.3 ..., single leaves, the STORED float sum / sumsq read as exact dyadics, the variance modelled in binary64) with '
+        'scipy.stats.t.cdf as an oracle that is a FUNCTION of the modelled statistic (table statistic -> value)',
+        'float rounding at an exactly-hit threshold is outside the property\'s "up to rounding": when a rational score equals a '
+        'threshold or floor as written (7/10, 1/10, 4/5) or lies within 2^-44 (relative) of its binary64 value, the float score '
+        'may fall on the other side and the real code decides the opposite of the exact computation (hypothesis off_threshold of '
+        'c11_sound_from_stats / c11_complete_from_stats).  Such cases are generated on purpose (threshold_hit_cases: 0.7 / 0.1 / '
+        '0.8 with n <= 40) and counted in evidence under c11_threshold_hit_exactly, with the real outcome against both exact '
+        'readings; in welch_cases a case with such a hit is counted there and its model decision is not compared',
+        'scipy.stats.t.cdf(x, df=0) is NaN (hypothesis of c11_welch_constant_gene; observed on every zero-variance gene)',
         'premises of c11_boring_t_sound (end_lo, end_hi, monotone on [-boring_t, boring_t]) and of c11_sound_exact_welch '
         '(exact p of a skipped gene >= p_th) are evaluated numerically on every (t, nu) that occurs and for p_th in '
         '[1e-11, 0.0455] x nu in [0.1, 1e6]; they fail for nu above a few million (known finding, boring_huge_nu_case)',
@@ -1426,6 +1712,9 @@ def run(ctx):
     sdg_cases(ctx)
     e2e_cases(ctx)
     welch_cases(ctx)
+    threshold_hit_cases(ctx)
+    constant_gene_case(ctx)
+    ctx.extra['c11_constant_gene_rounding_noise'] = dict(NOISE)
     boring_premise_cases(ctx)
     boring_huge_nu_case(ctx)
     totalisation_cases(ctx)
